@@ -328,7 +328,7 @@ def run(ctx):
     for _ in range(ndecl):
         d = gen_decl(ctx.rng)
         stats['decl:' + d['what']] = stats.get('decl:' + d['what'], 0) + 1
-        out.failures.extend(oracle_decl(d))
+        out.failures.extend(sc.guarded(oracle_decl, d, 'decl:hang', 'decl'))
     out.evaluations = len(cases) + ncontr + nnames + n_all + ndecl
     out.nontrivial = len(seen)
     out.rule = ('random equation blocks (shared solver generator) weighted towards caps 0..5, expansive / oscillating / '
